@@ -36,6 +36,9 @@ TRUSTED_BASE = [
     "schedules of a released service loop (order in which it takes queued expiries, expiries arriving while it runs, how many it still "
     "takes after Stop() before it sees the close signal) are NOT predicted: Corr.agree runs the model along the schedule read off the "
     "implementation's own callback records (Model.follow) and compares everything else; C14_monitor_accepts_model holds for every schedule",
+    "a released loop that never finds its queue empty (expiries arriving as fast as the driver releases it, on a loaded machine) is "
+    "parked again after 120 rounds / 40 ms with what is left still queued; the observation says so (BRanCut) and the model then does not "
+    "require the rest to have been run in that release (it stays queued and is required later)",
     "service harness: the loop is parked in a scheduler task whenever the driver acts (busy owner); the driver looks at the queue while "
     "nobody drains it by taking the entries out and putting the same objects back in order (scan); it never calls Do",
     "ASSUMED about the Go runtime (the only environment assumption, enabling condition of step SFireCheck): a function given to "
